@@ -38,6 +38,7 @@ package nflog
 // C10/C04: GC drops exactly the entries whose expiry is not after the GC instant and keeps every other entry untouched.
 //@ func (*Log).GC
 //@   props C10 C04
+//@   ensures [monitor-lock-released] count("Mutex).Lock") == count("Mutex).Unlock") && count("Mutex).Lock") == 1
 //@   requires l != nil && l.metrics != nil && l.metrics.gcDuration != nil
 //@   requires forall k string :: k in l.st ==> l.st[k] != nil
 //@   ensures [exact] result1 == nil ==> (forall k string :: (k in l.st) == (old(k in l.st) && tsT(old(l.st[k].ExpiresAt)) > ret("Log).now")))
@@ -56,6 +57,8 @@ package nflog
 // timestamp, and receiver data handed through unchanged. Other keys are never touched; timestamps never go back.
 //@ func (*Log).Log
 //@   props C10 C04
+//@   ensures [monitor-lock-released] count("Mutex).Lock") == count("Mutex).Unlock") && count("Mutex).Lock") <= 1
+//@   at call state).merge assert [monitor-lock-held] count("Mutex).Lock") == 1 && count("Mutex).Unlock") == 0
 //@   requires l != nil && r != nil && l.st != nil && wfState(l.st) && l.broadcast != nil
 //@   ensures [future-kept] old(logKey(gkey, r) in l.st) && old(tsT(l.st[logKey(gkey, r)].Entry.Timestamp)) > first("Log).now")
 //@             ==> result == nil && dom(l.st) == old(dom(l.st)) && vals(l.st) == old(vals(l.st)) && !called("broadcast")
@@ -88,6 +91,8 @@ package nflog
 // stored, keys not mentioned keep their entry, and a batch that does not decode changes nothing.
 //@ func (*Log).Merge
 //@   props C10
+//@   ensures [monitor-lock-released] count("Mutex).Lock") == count("Mutex).Unlock") && count("Mutex).Lock") <= 1
+//@   at call state).merge assert [monitor-lock-held] count("Mutex).Lock") == 1 && count("Mutex).Unlock") == 0
 //@   requires l != nil && l.st != nil && wfState(l.st) && l.broadcast != nil && l.metrics != nil && l.metrics.propagatedMessagesTotal != nil && l.logger != nil
 //@   ensures [monotone] forall k string :: old(k in l.st) ==> k in l.st && tsT(l.st[k].Entry.Timestamp) >= old(tsT(l.st[k].Entry.Timestamp))
 //@   ensures [newer-only] forall k string :: old(k in l.st) && l.st[k] != old(l.st[k]) ==> tsT(l.st[k].Entry.Timestamp) > old(tsT(l.st[k].Entry.Timestamp))
@@ -193,6 +198,8 @@ package nflog
 //@   assigns q.groupKey
 //@ func (*Log).Query$1
 //@   props C04 C10
+//@   ensures [monitor-lock-released] count("RWMutex).RLock") == count("RWMutex).RUnlock") && count("RWMutex).RLock") <= 1
+//@   at call nflog.stateKey assert [monitor-lock-held] count("RWMutex).RLock") == 1 && count("RWMutex).RUnlock") == 0
 //@   nosafe
 //@   at call dynamic:elem:freevar:params assert [one-query-object] arg0 == q && fresh(arg0)
 //@   at call nflog.stateKey assert [key-of-group-and-receiver] arg0 == q.groupKey && arg1 == q.recv && q.recv != nil && q.groupKey != "" && count("dynamic:elem:freevar:params") == len(deref(params))
